@@ -44,6 +44,7 @@ ASSUMPTIONS = ["normalize is idempotent (checked for every name used: NFC(NFC(x)
                "metadata 'tahoe' values are dicts (the edit operations never store anything else)"]
 
 import json
+import os
 import unicodedata
 
 import common
@@ -264,6 +265,9 @@ def gen_history(rng, n, npool):
     return {"names": names, "ops": ops}
 
 
+# fixed corpus (runs first, independent of VERIF_SEED): one minimal history per known mechanism —
+#  rename onto an NFC-equivalent spelling (seeded C20-a), overwrite modes / rename failures, the metadata rule
+#  "None keeps, {} clears, 'tahoe' ignored" (seeded C20-c); TWO_CORPUS: no-overwrite on the retry path (seeded C20-b)
 CORPUS = [
     # rename onto an NFC-equivalent spelling of itself inside one directory (the "redundant rename" shortcut)
     {"names": ["\u00e9", "e\u0301"], "ops": [
@@ -274,6 +278,16 @@ CORPUS = [
         [0, "move_child_to", [1, 0], "\u00e9", [0, 1], "x", "y"],
         [2, "move_child_to", [1, 0], "\u00e9", [1, 0], "b", "y"],
         [2, "get_metadata_for", [1, 0], "b"]]},
+    # metadata given without user keys clears the user metadata, None keeps it (seeded C20-c)
+    {"names": ["x", "y", "z"], "ops": [
+        [1, "set_node", [0, 0], "x", ["pool", 0], {"k1": 1, "k2": "v"}, "y"],
+        [1, "set_metadata_for", [0, 0], "x", {}],
+        [1, "set_node", [0, 0], "y", ["pool", 3], {"k1": 1}, "y"],
+        [1, "set_node", [0, 0], "y", ["pool", 3], {"tahoe": {"linkcrtime": 5}}, "y"],
+        [1, "set_uri", [0, 0], "z", ["pool", 5], {"k1": 1}, "y"],
+        [1, "set_uri", [0, 0], "z", ["pool", 5], None, "y"],
+        [1, "set_children", [0, 0], [["z", ["pool", 6], {}]], "y", False],
+        [1, "get_metadata_for", [0, 0], "x"], [0, "get_metadata_for", [0, 0], "y"], [0, "get_metadata_for", [0, 0], "z"]]},
     # overwrite modes against file / directory / unknown children, rename failures
     {"names": ["a", "b"], "ops": [
         [1, "set_node", [0, 0], "a", ["dir", 1, "rw"], {"k1": 1}, "y"],
@@ -826,10 +840,11 @@ def run(ctx):
         npool = len(cap_pool())
         hists = [json.loads(json.dumps(h)) for h in CORPUS]
         lens = [4, 12, 30] if ctx.tier != "thorough" else [4, 12, 30, 30, 80]
-        for _ in range(ctx.budget(50, 500)):
+        corpus_only = os.environ.get("VERIF_CORPUS_ONLY") == "1"
+        for _ in range(0 if corpus_only else ctx.budget(50, 500)):
             hists.append(gen_history(ctx.rng, ctx.rng.choice(lens), npool))
         twos = [json.loads(json.dumps(t)) for t in TWO_CORPUS]
-        for _ in range(ctx.budget(40, 600)):
+        for _ in range(0 if corpus_only else ctx.budget(40, 600)):
             twos.append(gen_two_writer(ctx.rng))
     lines, impls = [], []
     with grid.Runtime(seed=ctx.seed, policy="random") as rt:
